@@ -71,7 +71,7 @@ Definition gl (f : cpc -> bool) (g : gpc) : bool :=
 
 (* owns callbackInProcess: from winning the CAS (or being spawned) to the store of 0 *)
 Definition g_own (g : gpc) : bool :=
-  match g with GMove | GChk | GCb | GCbBody _ _ | GCbClose _ _ | GCbEnd | GClr => true | _ => false end.
+  match g with GMove | GChk | GCb | GCbBody _ _ | GCbClose _ _ | GCbEnd | GSw | GSwP | GSwR | GClr => true | _ => false end.
 (* between clearing the flag and the re-check of pending *)
 Definition g_re (g : gpc) : bool := match g with GLdCs | GLen | GCas => true | _ => false end.
 (* owner that will still look at recvBuf *)
@@ -83,10 +83,17 @@ Definition g_run (g : gpc) : bool := match g with GCbBody _ _ | GCbClose _ _ | G
 Definition g_cb (g : gpc) : bool := match g with GCb => true | _ => false end.
 Definition g_exit (g : gpc) : bool := match g with GExit => true | _ => false end.
 Definition g_all (g : gpc) : bool := true.
-Definition g_atclr (g : gpc) : bool := match g with GClr => true | _ => false end.
+(* owner that has left the OnData loop (sweep, then clearing the flag) *)
+Definition g_atclr (g : gpc) : bool := match g with GSw | GSwP | GSwR | GClr => true | _ => false end.
+(* owner that will still sweep recvBuf if it finds the state closed *)
+Definition g_sw (g : gpc) : bool :=
+  match g with GMove | GChk | GCb | GCbBody _ _ | GCbClose _ _ | GCbEnd | GSw | GSwP | GSwR => true | _ => false end.
+(* inside the sweep (only entered with the state closed) *)
+Definition g_swin (g : gpc) : bool := match g with GSwP | GSwR => true | _ => false end.
 (* will still reach the load of callbackCloseState, or is already on the exit path that runs close() *)
 Definition g_w (g : gpc) : bool :=
-  match g with GMove | GChk | GCb | GCbBody _ _ | GCbClose _ _ | GCbEnd | GClr | GLdCs | GWgDoneClose | GClose _ => true | _ => false end.
+  match g with GMove | GChk | GCb | GCbBody _ _ | GCbClose _ _ | GCbEnd | GSw | GSwP | GSwR | GClr | GLdCs | GWgDoneClose | GClose _ => true
+  | _ => false end.
 Definition g_cbpast (g : gpc) : bool := match g with GCbClose c _ => c_past c | _ => false end.
 (* the exit path of the goroutine (entered only after it has read callbackWaitExit) *)
 Definition g_xc (g : gpc) : bool := match g with GWgDoneClose | GClose _ => true | _ => false end.
@@ -147,7 +154,7 @@ Proof.
       try (destruct (inbox s) as [|e r]; [left; reflexivity|]; destruct (intable s); [destruct e|]; cbn; left; reflexivity);
       try destruct (cbset s) eqn:Ecb; zeq; cbn; uc; lia.
   - unfold gstep. destruct (nth_error (gors s) i) as [g|]; [|left; reflexivity].
-    destruct g as [| | |k cl|c more| | | | | | | |c|]; cbn; try (left; reflexivity);
+    destruct g as [| | |k cl|c more| | | | | | | | | | |c|]; cbn; try (left; reflexivity);
       try (pose proof (cstep_mono s c) as Hm; unfold mono in *; destruct (negb (isret c) && isret (snd (cstep s c))); cbn; exact Hm);
       zeq; cbn; try destruct (recv s); try destruct (pending s); cbn; left; reflexivity.
   - unfold clstep. destruct (nth_error (clos s) i) as [c|]; [|left; reflexivity].
@@ -183,7 +190,7 @@ Ltac cb := cbn [step estep gstep clstep sstep ustep systep cstep setg clear_pend
   set_st set_inproc set_cstate set_wg set_cbset set_intable set_cnotify set_pending set_recv set_inbox set_epc
   set_gors set_clos set_spc set_users set_script set_sypc set_sytodo set_processed set_arrived set_chunks set_consumed set_offers
   set_nlocal set_nremote set_out set_khalf set_lhalf set_casfail set_nret
-  b2z nz c_athalf c_needcl c_pendcb c_send c_cleanT c_ret c_busy c_past gl g_own g_re g_act g_run g_cb g_exit g_all g_atclr g_w g_cbpast g_xc g_badclose
+  b2z nz c_athalf c_needcl c_pendcb c_send c_cleanT c_ret c_busy c_past gl g_own g_re g_act g_run g_cb g_exit g_all g_atclr g_sw g_swin g_w g_cbpast g_xc g_badclose
   e_proxy e_guard e_wclr e_clr e_halfn e_half e_cas s_proxy s_busy y_busy upc utodo ures negb orb andb cz ncl] in *.
 
 Ltac cases s w :=
@@ -191,7 +198,7 @@ Ltac cases s w :=
   [ unfold estep; destruct (epc s) eqn:Ee;
       [ destruct (inbox s) as [|e r] eqn:Ei; [|destruct (intable s) eqn:Et; [destruct e as [m|]|]] | .. ]
   | unfold gstep; destruct (nth_error (gors s) i) as [g|] eqn:Hn;
-      [destruct g as [| | |k cl|c more| | | | | | | |c|]; [ | | |destruct cl|destruct c| | | | | | | |destruct c|] |]
+      [destruct g as [| | |k cl|c more| | | | | | | | | | |c|]; [ | | |destruct cl|destruct c| | | | | | | | | | |destruct c|] |]
   | unfold clstep; destruct (nth_error (clos s) i) as [c|] eqn:Hn; [destruct c|]
   | unfold sstep; destruct (spc s) eqn:Es; [destruct (sypc s) eqn:Ey|..]
   | unfold ustep; destruct (nth_error (users s) i) as [u|] eqn:Hn; [destruct (upc u) as [|m|m|m aft]; [destruct (utodo u)| | |]|]
@@ -255,6 +262,7 @@ Ltac czpos s :=
   pose proof (b2z_range (intable s)); pose proof (e_range (epc s)); pose proof (s_range (spc s));
   pose proof (b2z_range (cbset s));
   pose proof (cz_nonneg c_busy (clos s)); pose proof (cz_nonneg c_past (clos s)); pose proof (cz_nonneg g_all (gors s)); pose proof (cz_nonneg g_atclr (gors s));
+  pose proof (cz_nonneg g_sw (gors s)); pose proof (cz_nonneg g_swin (gors s));
   pose proof (cz_nonneg g_w (gors s)); pose proof (cz_nonneg g_cbpast (gors s));
   pose proof (cz_nonneg g_xc (gors s)); pose proof (cz_nonneg g_badclose (gors s));
   pose proof (le_athalf_past (clos s)); pose proof (le_athalf_busy (clos s));
@@ -283,6 +291,7 @@ Ltac czin := match goal with
       try (pose proof (cz_pos_in g_act _ _ _ Hn eq_refl)); try (pose proof (cz_pos_in g_run _ _ _ Hn eq_refl));
       try (pose proof (cz_pos_in g_cb _ _ _ Hn eq_refl)); try (pose proof (cz_pos_in (gl c_athalf) _ _ _ Hn eq_refl));
       try (pose proof (cz_pos_in g_all _ _ _ Hn eq_refl)); try (pose proof (cz_pos_in g_w _ _ _ Hn eq_refl));
+      try (pose proof (cz_pos_in g_sw _ _ _ Hn eq_refl)); try (pose proof (cz_pos_in g_swin _ _ _ Hn eq_refl));
       try (pose proof (cz_pos_in g_cbpast _ _ _ Hn eq_refl)); try (pose proof (cz_pos_in g_xc _ _ _ Hn eq_refl));
       try (pose proof (cz_pos_in g_badclose _ _ _ Hn eq_refl))
   | _ => idtac end.
@@ -298,11 +307,12 @@ Record InvP (s : est) : Prop := {
   b_needE : st s <> c_streamClosed -> e_clr (epc s) = 0;
   b_needC : st s <> c_streamClosed -> cz c_needcl (clos s) = 0;
   b_needG : st s <> c_streamClosed -> cz (gl c_needcl) (gors s) = 0;
+  b_needS : st s <> c_streamClosed -> cz g_swin (gors s) = 0;
   b_st : st s = c_streamOpened \/ st s = c_streamHalfClosed \/ st s = v_streamLocalHalfClosed \/ st s = c_streamClosed;
   b_tbl2 : b2z (intable s) = 0 -> st s = c_streamClosed }.
 
 Lemma stepP s w : InvP s -> InvP (step s w).
-Proof. intros [H1 H2 H3 H6 H7]. cases s w; brk; constructor; fin s. Qed.
+Proof. intros [H1 H2 H3 H3s H6 H7]. cases s w; brk; constructor; fin s. Qed.
 
 (* close accounting: every departure from `opened` is reported exactly once.  The local half-close made by
    Close() while a callback runs is a debt (the state value itself records it) that the close() of the
@@ -330,7 +340,7 @@ Record InvT (s : est) : Prop := {
 
 Lemma stepT s w : InvP s -> InvT s -> InvT (step s w).
 Proof.
-  intros [P1 P2 P3 P6 P7] [H1 H2 H4]. clear P1 P3.
+  intros [P1 P2 P3 P3s P6 P7] [H1 H2 H4]. clear P1 P3 P3s.
   cases s w; brk; constructor; fin s.
 Qed.
 
@@ -374,7 +384,7 @@ Ltac finL :=
 
 Lemma stepL s w : InvP s -> InvL s -> InvL (step s w).
 Proof.
-  intros [P1 P2 P3 P6 P7] [H1 H2 H3]. clear P7.
+  intros [P1 P2 P3 P3s P6 P7] [H1 H2 H3]. clear P7.
   cases s w; brk; constructor; finL.
 Qed.
 
@@ -430,57 +440,6 @@ Qed.
 
 
 (* ====================================================================================================
-   A Close() always completes (callbacks either installed from the start or never installed during the run):
-   whoever is told to finish the close is still there to do it
-   ==================================================================================================== *)
-(* goroutine-side witnesses: threads that will still load callbackCloseState, or already run the exit close() *)
-Definition Wg (s : est) : Z := cz g_w (gors s) + e_proxy (epc s) + s_proxy (spc s).
-
-(* facts about the close state and the flag *)
-Record InvK1 (cb0 : bool) (s : est) : Prop := {
-  k_cb : b2z (cbset s) = b2z cb0;
-  k_cs01 : cstate s = 0 \/ cstate s = 1;
-  k_sp : s_busy (spc s) = 0;
-  (* without callbacks nothing ever takes the flag, and Close() does not store the close state *)
-  k_off : b2z cb0 = 0 -> inproc s = 0 /\ cstate s = 0 /\ e_cas (epc s) = 0 /\ cz g_all (gors s) = 0 /\ cz c_athalf (clos s) = 0;
-  (* with callbacks every Close() that is past its first statement has stored callbackWaitExit *)
-  k_cs : b2z cb0 = 1 -> cstate s = 1 \/ (cz c_past (clos s) = 0 /\ cz g_cbpast (gors s) = 0);
-  k_kh : b2z (khalf s) = 0 \/ cstate s = 1;
-  k_gc : cz g_xc (gors s) = 0 \/ cstate s = 1;
-  k_bad : cz g_badclose (gors s) = 0 }.
-
-Lemma stepK1 cb0 s w : (w = WSet -> b2z cb0 = 1) -> InvC s -> InvK1 cb0 s -> InvK1 cb0 (step s w).
-Proof.
-  intros Hc [C1 C2 _ _] [K1 K2 K3 K4 K5 K6 K6a K6b]. pose proof (b2z_range cb0).
-  cases s w; try specialize (Hc eq_refl); brk; constructor; fin s.
-Qed.
-
-Record InvK2 (s : est) : Prop := {
-  (* a Close() that found callbackInProcess = 1 leaves the close to a thread that is still there *)
-  k_F : cz c_athalf (clos s) = 0 \/ st s = c_streamClosed \/ Wg s > 0;
-  k_R : cstate s = 0 \/ st s = c_streamClosed \/ cz c_busy (clos s) + Wg s > 0;
-  k_ret2 : st s = c_streamClosed \/ cz c_ret (clos s) = 0 \/ cstate s = 1 }.
-
-Ltac finK s := cb; rw_eqs; rw_cnt; cb; try assumption; czin; cb; uc; zeqh; uc; cb; try lia; czpos s; lia.
-Lemma stepK2 cb0 s w : (w = WSet -> b2z cb0 = 1) -> InvP s -> InvC s -> InvK1 cb0 s -> InvK2 s -> InvK2 (step s w).
-Proof.
-  intros Hc [_ P2 P3 _ _] [C1 C2 _ _] [K1 K2 K3 K4 K5 _ K6a K6b] [K7 K8 K9]. unfold Wg in *. pose proof (b2z_range cb0).
-  constructor; unfold Wg.
-  - clear P2 K2 K8 K9. cases s w; try specialize (Hc eq_refl); brk; finK s.
-  - clear K9. cases s w; try specialize (Hc eq_refl); brk; finK s.
-  - clear P3 C1 C2 K2 K6a K6b K7 K8. cases s w; try specialize (Hc eq_refl); brk; finK s.
-Qed.
-
-Record InvK (cb0 : bool) (s : est) : Prop := { k_1 : InvK1 cb0 s; k_2 : InvK2 s }.
-Lemma stepK cb0 s w : (cb0 = true \/ w <> WSet) -> InvP s -> InvC s -> InvK cb0 s -> InvK cb0 (step s w).
-Proof.
-  intros Hw HP HC [H1 H2].
-  assert (Hc : w = WSet -> b2z cb0 = 1) by (intros ->; destruct Hw as [->|Hw]; [reflexivity|congruence]).
-  constructor; [apply stepK1; auto|eapply stepK2; eauto].
-Qed.
-
-
-(* ====================================================================================================
    Every reachable state
    ==================================================================================================== *)
 Ltac initc := intros; constructor; cbn; rewrite ?cz_repeat_false by reflexivity; uc; cbn; try lia; auto.
@@ -495,11 +454,6 @@ Lemma initL cb0 inb n scr ups sy : InvL (init_sy cb0 inb n scr ups sy).
 Proof. initc. Qed.
 Lemma initC cb0 inb n scr ups sy : InvC (init_sy cb0 inb n scr ups sy).
 Proof. destruct cb0; initc; try (intros; repeat split; cbn; rewrite ?cz_repeat_false by reflexivity; lia). Qed.
-Lemma initK cb0 inb n scr ups sy : InvK cb0 (init_sy cb0 inb n scr ups sy).
-Proof.
-  constructor; [destruct cb0; initc|constructor; unfold Wg; cbn; rewrite ?cz_repeat_false by reflexivity; uc; lia].
-Qed.
-
 Record InvAll (s : est) : Prop := { a_P : InvP s; a_A : InvA s; a_T : InvT s; a_L : InvL s; a_C : InvC s }.
 
 Lemma stepAll s w : InvAll s -> InvAll (step s w).
@@ -511,18 +465,6 @@ Lemma runAll sched s : InvAll s -> InvAll (run sched s).
 Proof. revert s; induction sched as [|w l IH]; simpl; intros s H; auto. apply IH, stepAll, H. Qed.
 Lemma initAll cb0 inb n scr ups sy : InvAll (init_sy cb0 inb n scr ups sy).
 Proof. constructor; [apply initP|apply initA|apply initT|apply initL|apply initC]. Qed.
-
-(* callbacks are installed from the start, or SetCallbacks is not called during the run *)
-Definition cb_stable (cb0 : bool) (sched : list who) : Prop := cb0 = true \/ ~ In WSet sched.
-Lemma runK cb0 sched s : cb_stable cb0 sched -> InvAll s -> InvK cb0 s -> InvK cb0 (run sched s).
-Proof.
-  revert s; induction sched as [|w l IH]; simpl; intros s Hs HA HK; auto.
-  apply IH.
-  - destruct Hs as [Hs|Hs]; [left; auto|right; intros Hi; apply Hs; right; exact Hi].
-  - apply stepAll, HA.
-  - apply stepK; [|apply HA|apply HA|exact HK].
-    destruct Hs as [Hs|Hs]; [left; auto|right; intros ->; apply Hs; left; reflexivity].
-Qed.
 
 (* ---------- list/count helpers for the statements ---------- *)
 Lemma cz_all_false {A} (f : A -> bool) l : (forall i x, nth_error l i = Some x -> f x = false) -> cz f l = 0.
@@ -545,6 +487,14 @@ Proof.
   unfold movedof. induction ch as [|[b x] ch IH]; simpl; auto.
   intros H. apply andb_prop in H. destruct H as [Hb Hr]. simpl in Hb. subst b. simpl. rewrite IH; auto.
 Qed.
+
+Lemma read_not_blocked s : st s <> c_streamOpened -> read_res s <> RBlocked.
+Proof.
+  intros H. unfold read_res. destruct (recv s ++ concat (pending s)); [|discriminate].
+  destruct (Z.eqb_spec (st s) c_streamOpened); [congruence|discriminate].
+Qed.
+Lemma flush_closed s : st s <> c_streamOpened -> flush_res s = RErrStreamClosed.
+Proof. intros H. unfold flush_res. destruct (Z.eqb_spec (st s) c_streamOpened); [congruence|reflexivity]. Qed.
 
 (* ====================================================================================================
    C20
@@ -581,7 +531,7 @@ Theorem no_strand sched :
 Proof.
   intros s Hcb Hp Hst Hcs Hno.
   pose proof (runAll sched s0 (initAll _ _ _ _ _ _)) as HA. fold s in HA.
-  destruct HA as [[HE _ _ _ _] _ _ _ [_ _ _ _ _ HP _ _]].
+  destruct HA as [[HE _ _ _ _ _] _ _ _ [_ _ _ _ _ HP _ _]].
   assert (Ho : cz g_own (gors s) = 0) by (apply cz_all_false; exact Hno).
   assert (Hnz : nz (pending s) = 1) by (destruct (pending s); simpl; [congruence|lia]).
   rewrite Hcb, Hcs, Ho, Hnz in HP. cbn [b2z] in HP.
@@ -660,503 +610,3 @@ Proof.
   pose proof (stop_step s w Hst). fold (run l (step s w)) in *. lia.
 Qed.
 
-(* ====================================================================================================
-   C10
-   ==================================================================================================== *)
-(* OnRemoteClose is only reported for a close notification that was taken from the inbox *)
-Record InvR (s : est) : Prop := {
-  r_rem : nremote s + e_halfn (epc s) + e_half (epc s) <= ncl (processed s) }.
-Lemma stepR s w : InvR s -> InvR (step s w).
-Proof. intros [H1]. cases s w; brk; constructor; first [solve [fin s] | destruct e; fin s]. Qed.
-Lemma initR cb0 inb n scr ups sy : InvR (init_sy cb0 inb n scr ups sy).
-Proof. initc. Qed.
-Lemma runR sched s : InvR s -> InvR (run sched s).
-Proof. revert s; induction sched as [|w l IH]; simpl; intros s H; auto. apply IH, stepR, H. Qed.
-
-Definition quiesc (s : est) : Prop :=
-  epc s = EIdle /\ inbox s = [] /\ (forall i g, nth_error (gors s) i = Some g -> g = GExit) /\
-  (forall i c, nth_error (clos s) i = Some c -> c = KRet \/ c = KStart) /\ (spc s = SIdle \/ spc s = SDone).
-(* some Close() has returned: a closer thread's, or one that took the half-close branch (the only way
-   a Close() issued inside OnData returns) *)
-Definition close_returned (s : est) : Prop := (exists i, nth_error (clos s) i = Some KRet) \/ khalf s = true.
-Definition closed_ok (s : est) : Prop :=
-  st s = c_streamClosed /\ intable s = false /\ flush_res s = RErrStreamClosed /\ read_res s <> RBlocked /\
-  nlocal s + nremote s = 1 /\
-  ((nremote s = 1 /\ ncl (out s) = 0) \/ (nlocal s = 1 /\ ncl (out s) = 1)).
-
-Lemma read_not_blocked s : st s <> c_streamOpened -> read_res s <> RBlocked.
-Proof.
-  intros H. unfold read_res. destruct (recv s ++ concat (pending s)); [|discriminate].
-  destruct (Z.eqb_spec (st s) c_streamOpened); [congruence|discriminate].
-Qed.
-Lemma flush_closed s : st s <> c_streamOpened -> flush_res s = RErrStreamClosed.
-Proof. intros H. unfold flush_res. destruct (Z.eqb_spec (st s) c_streamOpened); [congruence|reflexivity]. Qed.
-
-Lemma full_inv cb0 s :
-  InvAll s -> InvK cb0 s -> quiesc s -> close_returned s -> closed_ok s.
-Proof.
-  intros HA HK [He [_ [Hg [Hcl Hsp]]]] Hret.
-  destruct HA as [_ [Hacc [Hn1 Hn2] Hwake Hsent] [Htbl _ _] _ _].
-  destruct HK as [[_ _ _ _ _ Hkh _ _] [_ HR Hret2]]. unfold Wg in HR.
-  assert (G0 : forall f, f GExit = false -> cz f (gors s) = 0).
-  { intros f Hf. apply cz_all_false. intros j g Hj. rewrite (Hg j g Hj). exact Hf. }
-  assert (C0 : forall f, f KRet = false -> f KStart = false -> cz f (clos s) = 0).
-  { intros f H1 H2. apply cz_all_false. intros j c Hj. destruct (Hcl j c Hj) as [->| ->]; auto. }
-  assert (Hsb : s_proxy (spc s) = 0) by (destruct Hsp as [-> | ->]; reflexivity).
-  rewrite (G0 g_w), (C0 c_busy), He, Hsb in HR by reflexivity. cbn [e_proxy] in HR.
-  assert (Hst : st s = c_streamClosed).
-  { destruct Hret as [[i Hi]|Hret].
-    - pose proof (cz_pos_in c_ret (clos s) i KRet Hi eq_refl). lia.
-    - rewrite Hret in Hkh. cbn [b2z] in Hkh. lia. }
-  rewrite (G0 (gl c_pendcb)), (C0 c_pendcb), He in Hacc by reflexivity.
-  rewrite (G0 (gl c_send)), (C0 c_send) in Hsent by reflexivity.
-  specialize (Htbl Hst). rewrite (G0 (gl c_cleanT)), (C0 c_cleanT) in Htbl by reflexivity.
-  assert (Hne : st s <> c_streamOpened) by (uc; lia).
-  destruct (Z.eqb_spec (st s) c_streamOpened); [congruence|].
-  destruct (Z.eqb_spec (st s) v_streamLocalHalfClosed); [uc; lia|]. cbn [e_halfn b2z] in Hacc.
-  unfold closed_ok. split; [exact Hst|]. split.
-  { destruct (intable s); simpl in Htbl; [lia|reflexivity]. }
-  split; [apply flush_closed; auto|]. split; [apply read_not_blocked; auto|].
-  pose proof (ncl_nonneg (out s)). lia.
-Qed.
-
-Section C10.
-Variables (cb0 : bool) (inb : list ev) (ncl_ : nat) (scr : list (nat * nat)) (ups : list (list (list Z))) (sy : list nat).
-Let s0 := init_sy cb0 inb ncl_ scr ups sy.
-
-Theorem monotone sched sched' :
-  let s := run sched s0 in let s' := run sched' s in
-  (st s = c_streamOpened \/ st s = c_streamHalfClosed \/ st s = v_streamLocalHalfClosed \/ st s = c_streamClosed) /\
-  (st s = c_streamClosed -> st s' = c_streamClosed) /\
-  (st s = c_streamHalfClosed -> st s' = c_streamHalfClosed \/ st s' = c_streamClosed) /\
-  (st s = v_streamLocalHalfClosed -> st s' = v_streamLocalHalfClosed \/ st s' = c_streamClosed).
-Proof.
-  intros s s'. pose proof (runAll sched s0 (initAll _ _ _ _ _ _)) as HA. fold s in HA.
-  destruct HA as [[_ _ _ Hst _] _ _ _ _].
-  pose proof (run_mono sched' s) as Hm. fold s' in Hm. unfold mono in Hm. uc. lia.
-Qed.
-
-Theorem callbacks_at_most_once sched :
-  let s := run sched s0 in
-  0 <= nlocal s /\ 0 <= nremote s /\ nlocal s + nremote s <= 1 /\
-  (st s = c_streamOpened -> nlocal s + nremote s = 0) /\ ncl (out s) <= nlocal s.
-Proof.
-  intros s. pose proof (runAll sched s0 (initAll _ _ _ _ _ _)) as HA. fold s in HA.
-  destruct HA as [_ [Hacc [Hn1 Hn2] Hwake Hsent] _ _ _]. czpos s.
-  destruct (Z.eqb_spec (st s) c_streamOpened); destruct (Z.eqb_spec (st s) v_streamLocalHalfClosed);
-    cbn [b2z] in Hacc; uc; repeat split; try lia.
-Qed.
-
-Theorem final_flush sched i :
-  let s := run sched s0 in
-  nth_error (clos s) i = Some KRet ->
-  st s <> c_streamOpened /\ flush_res s = RErrStreamClosed /\ read_res s <> RBlocked.
-Proof.
-  intros s Hi. pose proof (runAll sched s0 (initAll _ _ _ _ _ _)) as HA. fold s in HA.
-  destruct HA as [_ _ [_ Hret _] _ _].
-  assert (Hst : st s <> c_streamOpened).
-  { intros E. specialize (Hret E). pose proof (cz_pos_in c_ret (clos s) i KRet Hi eq_refl). lia. }
-  split; [auto|split; [apply flush_closed|apply read_not_blocked]]; auto.
-Qed.
-
-(* a reader blocked in readMore is woken: once the state has left `opened`, closeNotifyCh is closed as soon as
-   no thread stands between its state transition and its report *)
-Theorem wake sched :
-  let s := run sched s0 in
-  st s <> c_streamOpened ->
-  epc s <> EHalfN -> cz c_pendcb (clos s) = 0 -> cz (gl c_pendcb) (gors s) = 0 ->
-  cnotify s = true.
-Proof.
-  intros s Hst He Hc Hg. pose proof (runAll sched s0 (initAll _ _ _ _ _ _)) as HA. fold s in HA.
-  destruct HA as [_ [_ _ Hwake _] _ _ _].
-  assert (Hh : e_halfn (epc s) = 0) by (destruct (epc s); simpl; auto; congruence).
-  destruct (cnotify s); auto. cbn [b2z] in Hwake. lia.
-Qed.
-
-Theorem peer sched :
-  let s := run sched s0 in
-  ncl (processed s) > 0 -> epc s <> EHalf ->
-  st s <> c_streamOpened /\ flush_res s = RErrStreamClosed /\ read_res s <> RBlocked /\
-  (recv s ++ concat (pending s) = [] -> read_res s = REndOfStream).
-Proof.
-  intros s Hp He. pose proof (runAll sched s0 (initAll _ _ _ _ _ _)) as HA. fold s in HA.
-  destruct HA as [_ _ [_ _ Hpeer] _ _].
-  assert (Hst : st s <> c_streamOpened).
-  { destruct (Hpeer Hp) as [H|H]; auto. destruct (epc s); simpl in H; try lia. congruence. }
-  repeat split; auto; [apply flush_closed|apply read_not_blocked|]; auto.
-  intros Hn. unfold read_res. rewrite Hn. destruct (Z.eqb_spec (st s) c_streamOpened); [congruence|reflexivity].
-Qed.
-
-(* the full statement: at quiescence after a returned Close() — from any goroutine, inside or during OnData,
-   racing the peer's close notification, repeated — the stream is closed, out of the table, reported exactly
-   once, and the peer was told unless it had told us *)
-Theorem full sched :
-  cb_stable cb0 sched ->
-  let s := run sched s0 in quiesc s -> close_returned s -> closed_ok s.
-Proof.
-  intros Hs s. apply (full_inv cb0).
-  - apply (runAll sched s0 (initAll _ _ _ _ _ _)).
-  - apply runK; [exact Hs|apply initAll|apply initK].
-Qed.
-End C10.
-
-(* ---------- two ends ---------- *)
-Lemma step_io s w :
-  (exists d, out (step s w) = out s ++ d) /\ processed (step s w) ++ inbox (step s w) = processed s ++ inbox s.
-Proof.
-  cases s w; brk; cb; rw_eqs; split;
-    try (exists []; rewrite app_nil_r; reflexivity); try (eexists; reflexivity); try reflexivity;
-    try (rewrite <- app_assoc; reflexivity); try (rewrite Ei; reflexivity).
-Qed.
-Lemma newout_app (e e' : est) d : out e' = out e ++ d -> newout e e' = d.
-Proof.
-  intros H. unfold newout. rewrite H. rewrite skipn_app, skipn_all, Nat.sub_diag. reflexivity.
-Qed.
-
-Lemma inboxP x s : InvP s -> InvP (set_inbox x s).
-Proof. intros [H1 H2 H3 H6 H7]. constructor; cb; assumption. Qed.
-Lemma inboxA x s : InvA s -> InvA (set_inbox x s).
-Proof. intros [H1 H2 H3 H4]. constructor; cb; assumption. Qed.
-Lemma inboxT x s : InvT s -> InvT (set_inbox x s).
-Proof. intros [H1 H2 H3]. constructor; cb; assumption. Qed.
-Lemma inboxL x s : InvL s -> InvL (set_inbox x s).
-Proof. intros [H1 H2 H3]. constructor; cb; assumption. Qed.
-Lemma inboxC x s : InvC s -> InvC (set_inbox x s).
-Proof. intros [H1 H2 H3 H4 H5 H6 H7 H8]. constructor; cb; assumption. Qed.
-Lemma inboxR x s : InvR s -> InvR (set_inbox x s).
-Proof. intros [H1]. constructor; cb; assumption. Qed.
-Lemma inboxK cb0 x s : InvK cb0 s -> InvK cb0 (set_inbox x s).
-Proof.
-  intros [[H1 H2 H3 H4 H5 H6 H7 H8] [H9 H10 H11]]. constructor; constructor; unfold Wg in *; cb; assumption.
-Qed.
-Lemma inboxAll x s : InvAll s -> InvAll (set_inbox x s).
-Proof. intros [H1 H2 H3 H4 H5]. constructor; [apply inboxP|apply inboxA|apply inboxT|apply inboxL|apply inboxC]; auto. Qed.
-
-Record WInv (cba : bool) (w : world) : Prop := {
-  w_a : InvAll (wa w); w_b : InvAll (wb w); w_ra : InvR (wa w); w_rb : InvR (wb w); w_ka : InvK cba (wa w);
-  w_ab : processed (wb w) ++ inbox (wb w) = out (wa w);
-  w_ba : processed (wa w) ++ inbox (wa w) = out (wb w) }.
-
-(* on end A callbacks are installed from the start, or SetCallbacks is not called on A during the run *)
-Definition wcb_stable (cba : bool) (sched : list (side * who)) : Prop := cba = true \/ ~ In (SA, WSet) sched.
-
-Lemma wstepI cba w x : (cba = true \/ x <> (SA, WSet)) -> WInv cba w -> WInv cba (wstep w x).
-Proof.
-  intros Hx [Ha Hb Ra Rb Ka Hab Hba]. destruct x as [[|] t]; unfold wstep; cbn [fst snd].
-  - destruct (step_io (wa w) t) as [[d Hd] Hio]. constructor; cbn [wa wb].
-    + apply stepAll; auto.
-    + apply inboxAll; auto.
-    + apply stepR; auto.
-    + apply inboxR; auto.
-    + apply stepK; [|apply Ha|apply Ha|exact Ka].
-      destruct Hx as [Hx|Hx]; [left; auto|right; intros ->; apply Hx; reflexivity].
-    + cb. rewrite (newout_app _ _ _ Hd), app_assoc, Hab, Hd. reflexivity.
-    + cb. rewrite Hio. exact Hba.
-  - destruct (step_io (wb w) t) as [[d Hd] Hio]. constructor; cbn [wa wb].
-    + apply inboxAll; auto.
-    + apply stepAll; auto.
-    + apply inboxR; auto.
-    + apply stepR; auto.
-    + apply inboxK; auto.
-    + cb. rewrite Hio. exact Hab.
-    + cb. rewrite (newout_app _ _ _ Hd), app_assoc, Hba, Hd. reflexivity.
-Qed.
-Lemma winitI cba cbb na nb sa sb ua ub : WInv cba (winit cba cbb na nb sa sb ua ub).
-Proof. unfold winit, init. constructor; cbn [wa wb]; try apply initAll; try apply initR; try apply initK; reflexivity. Qed.
-Lemma wrunI cba sched w : wcb_stable cba sched -> WInv cba w -> WInv cba (wrun sched w).
-Proof.
-  revert w; induction sched as [|x l IH]; simpl; intros w Hs H; auto. apply IH.
-  - destruct Hs as [Hs|Hs]; [left; auto|right; intros Hi; apply Hs; right; exact Hi].
-  - apply wstepI; auto. destruct Hs as [Hs|Hs]; [left; auto|right; intros ->; apply Hs; left; reflexivity].
-Qed.
-
-(* a Close() on end A reaches the peer: once B's event loop has drained its inbox, B's stream has left `opened` *)
-Theorem propagates cba cbb na nb sa sb ua ub sched :
-  wcb_stable cba sched ->
-  let w := wrun sched (winit cba cbb na nb sa sb ua ub) in
-  quiesc (wa w) -> close_returned (wa w) ->
-  inbox (wb w) = [] -> epc (wb w) = EIdle ->
-  st (wb w) <> c_streamOpened /\ flush_res (wb w) = RErrStreamClosed /\ read_res (wb w) <> RBlocked.
-Proof.
-  intros Hs w Hq Hr Hin He.
-  pose proof (wrunI cba sched _ Hs (winitI cba cbb na nb sa sb ua ub)) as HW. fold w in HW.
-  destruct HW as [Ha Hb Ra Rb Ka Hab Hba].
-  assert (Hst : st (wb w) <> c_streamOpened).
-  { assert (HA : (nremote (wa w) = 1 /\ ncl (out (wa w)) = 0) \/ (nlocal (wa w) = 1 /\ ncl (out (wa w)) = 1)).
-    { destruct (full_inv cba (wa w) Ha Ka Hq Hr) as [_ [_ [_ [_ [_ H]]]]]. exact H. }
-    destruct Hb as [_ [Bacc [Bn1 Bn2] _ Bsent] [_ _ Bpeer] _ _].
-    destruct Ra as [Ra].
-    destruct HA as [[Hrem _]|[_ Hsent]].
-    - destruct Hq as [Qe _]. rewrite Qe in Ra. cbn [e_halfn e_half] in Ra.
-      assert (Hp : ncl (processed (wa w)) >= 1) by lia.
-      assert (Ho : ncl (out (wb w)) >= 1).
-      { rewrite <- Hba, ncl_app. pose proof (ncl_nonneg (inbox (wa w))). lia. }
-      czpos (wb w). intros E. rewrite E in Bacc. cbn in Bacc. uc. cbn in Bacc. lia.
-    - rewrite Hin, app_nil_r in Hab. rewrite <- Hab in Hsent.
-      destruct (Bpeer ltac:(lia)) as [H|H]; auto. rewrite He in H. simpl in H. lia. }
-  split; [auto|split; [apply flush_closed|apply read_not_blocked]]; auto.
-Qed.
-
-(* ====================================================================================================
-   Nothing is left behind by a close: once close() has cleaned (nobody is between its CAS and the end of
-   clean()), pendingData and recvBuf are empty and stay empty — in particular a goroutine that was spawned
-   after close()'s Wait finds nothing to move into the recycled recvBuf
-   ==================================================================================================== *)
-Definition c_late (c : cpc) : bool := match c with CPend _ | CRecv _ => true | _ => false end.
-Definition c_pre (c : cpc) : bool := match c with CWait _ | CTbl _ | CPend _ => true | _ => false end.
-Definition c_cl4 (c : cpc) : bool := match c with CWait _ | CTbl _ | CPend _ | CRecv _ => true | _ => false end.
-Definition c_atrecv (c : cpc) : bool := match c with CRecv _ => true | _ => false end.
-
-Definition e_wrec (e : epcT) : Z := match e with EAdd _ | EChk | EClrP | EClrR => 1 | _ => 0 end.
-Record InvQ (s : est) : Prop := {
-  q_tbl : cz c_late (clos s) + cz (gl c_late) (gors s) = 0 \/ b2z (intable s) = 0;
-  (* an arrival whose table lookup preceded the clean may be added after it: the event loop is then on its way
-     to the state check that clears it *)
-  q_pend : st s <> c_streamClosed \/ cz c_pre (clos s) + cz (gl c_pre) (gors s) > 0 \/ nz (pending s) = 0 \/
-           e_wclr (epc s) = 1;
-  (* without callbacks the event loop also recycles recvBuf; WITH callbacks a goroutine that outlives the clean
-     can move such a late arrival into recvBuf, where nothing recycles it any more (see no_residue_refuted) *)
-  q_recv : st s <> c_streamClosed \/ cz c_cl4 (clos s) + cz (gl c_cl4) (gors s) > 0 \/ nz (recv s) = 0 \/
-           b2z (cbset s) = 1 \/ e_wrec (epc s) = 1 }.
-
-Lemma nz_skipn {A} k (l : list A) : nz l = 0 -> nz (skipn k l) = 0.
-Proof. destruct l; simpl; [destruct k; reflexivity|lia]. Qed.
-Lemma nz_app_nil {A} (l : list A) (p : list (list A)) : nz p = 0 -> l ++ concat p = l.
-Proof. destruct p; simpl; [intros _; apply app_nil_r|lia]. Qed.
-
-Ltac cbq := cbn [c_late c_pre c_cl4 c_atrecv e_wclr e_wrec] in *.
-Ltac czq s :=
-  pose proof (cz_nonneg c_late (clos s)); pose proof (cz_nonneg (gl c_late) (gors s));
-  pose proof (cz_nonneg c_pre (clos s)); pose proof (cz_nonneg (gl c_pre) (gors s));
-  pose proof (cz_nonneg c_cl4 (clos s)); pose proof (cz_nonneg (gl c_cl4) (gors s));
-  pose proof (cz_le c_pre c_cl4 (clos s) ltac:(intros [] E; simpl in *; congruence));
-  pose proof (cz_le (gl c_pre) (gl c_cl4) (gors s) ltac:(intros [| | | | c| | | | | | | |c|] E; simpl in *; try congruence; destruct c; simpl in *; congruence));
-  pose proof (cz_le c_cleanT c_pre (clos s) ltac:(intros [] E; simpl in *; congruence));
-  pose proof (cz_le (gl c_cleanT) (gl c_pre) (gors s) ltac:(intros [| | | | c| | | | | | | |c|] E; simpl in *; try congruence; destruct c; simpl in *; congruence));
-  pose proof (b2z_range (intable s)); pose proof (b2z_range (cbset s));
-  assert (0 <= e_wclr (epc s) <= e_wrec (epc s) /\ e_wrec (epc s) <= 1) by (destruct (epc s); simpl; lia).
-Ltac czinq := match goal with
-  | Hn : nth_error (clos _) _ = Some _ |- _ =>
-      try (pose proof (cz_pos_in c_late _ _ _ Hn eq_refl)); try (pose proof (cz_pos_in c_pre _ _ _ Hn eq_refl));
-      try (pose proof (cz_pos_in c_cl4 _ _ _ Hn eq_refl))
-  | Hn : nth_error (gors _) _ = Some _ |- _ =>
-      try (pose proof (cz_pos_in (gl c_late) _ _ _ Hn eq_refl)); try (pose proof (cz_pos_in (gl c_pre) _ _ _ Hn eq_refl));
-      try (pose proof (cz_pos_in (gl c_cl4) _ _ _ Hn eq_refl)); try (pose proof (cz_pos_in g_all _ _ _ Hn eq_refl))
-  | _ => idtac end.
-Ltac finq s := cb; cbq; rw_eqs; rw_cnt; cb; cbq; try assumption; czinq; cb; cbq; uc; zeqh; uc; cb; cbq; try lia; czq s; lia.
-
-Lemma stepQ s w : InvP s -> InvT s -> InvC s -> InvQ s -> InvQ (step s w).
-Proof.
-  intros [_ P2 P3 _ P7] [T1 _ _] [_ _ _ C4 _ _ _ _] [Q1 Q2 Q3].
-  cases s w; brk; constructor; try solve [finq s].
-  (* moveTo (goroutine or synchronous read) and consumes *)
-  all: cb; cbq; rw_eqs; rw_cnt; cb; cbq; cb;
-    first [ destruct (Z.eq_dec (nz (pending s)) 0) as [Hp|Hp]; [rewrite (nz_app_nil _ _ Hp); czinq; czq s; lia|czinq; czq s; lia]
-          | destruct (Z.eq_dec (nz (recv s)) 0) as [Hp|Hp]; [rewrite (nz_skipn _ _ Hp); czinq; czq s; lia|czinq; czq s; lia] ].
-Qed.
-Lemma initQ cb0 inb n scr ups sy : InvQ (init_sy cb0 inb n scr ups sy).
-Proof. constructor; cbn; rewrite ?cz_repeat_false by reflexivity; uc; lia. Qed.
-Lemma runQ sched s : InvAll s -> InvQ s -> InvQ (run sched s).
-Proof.
-  revert s; induction sched as [|w l IH]; simpl; intros s HA HQ; auto.
-  apply IH; [apply stepAll, HA|apply stepQ; [apply HA|apply HA|apply HA|exact HQ]].
-Qed.
-
-(* at closed quiescence nothing is left in pendingData; nothing is left in recvBuf either when no callbacks are
-   installed (a read then returns end-of-stream at once) *)
-Theorem no_residue_partial cb0 inb nc scr ups sy sched :
-  let s := run sched (init_sy cb0 inb nc scr ups sy) in
-  st s = c_streamClosed -> epc s = EIdle ->
-  (forall i g, nth_error (gors s) i = Some g -> g = GExit) ->
-  (forall i c, nth_error (clos s) i = Some c -> c = KRet \/ c = KStart) ->
-  pending s = [] /\ (cbset s = false -> recv s = [] /\ read_res s = REndOfStream).
-Proof.
-  intros s Hst He Hg Hc.
-  pose proof (runQ sched _ (initAll cb0 inb nc scr ups sy) (initQ cb0 inb nc scr ups sy)) as [_ Q2 Q3]. fold s in Q2, Q3.
-  assert (G0 : forall f, f GExit = false -> cz f (gors s) = 0).
-  { intros f Hf. apply cz_all_false. intros j g Hj. rewrite (Hg j g Hj). exact Hf. }
-  assert (C0 : forall f, f KRet = false -> f KStart = false -> cz f (clos s) = 0).
-  { intros f H1 H2. apply cz_all_false. intros j c Hj. destruct (Hc j c Hj) as [->| ->]; auto. }
-  rewrite (G0 (gl c_pre)), (C0 c_pre), He in Q2 by reflexivity.
-  rewrite (G0 (gl c_cl4)), (C0 c_cl4), He in Q3 by reflexivity. cbn [e_wclr e_wrec] in Q2, Q3.
-  assert (Hp : pending s = []) by (apply nz_nil; lia).
-  split; [exact Hp|]. intros Hcb. rewrite Hcb in Q3. cbn [b2z] in Q3.
-  assert (Hr : recv s = []) by (apply nz_nil; lia).
-  split; auto. unfold read_res. rewrite Hp, Hr. simpl.
-  destruct (Z.eqb_spec (st s) c_streamOpened); [uc; lia|reflexivity].
-Qed.
-Definition no_residue_stmt : Prop := forall cb0 inb nc scr ups sy sched,
-  let s := run sched (init_sy cb0 inb nc scr ups sy) in
-  st s = c_streamClosed -> epc s = EIdle ->
-  (forall i g, nth_error (gors s) i = Some g -> g = GExit) ->
-  (forall i c, nth_error (clos s) i = Some c -> c = KRet \/ c = KStart) ->
-  recv s = [].
-
-(* ---------- the bytes an OnData invocation was offered stay readable until it returns: while an OnData runs the
-   event loop never touches recvBuf.  (The closed path of fillDataToReadBuffer recycles recvBuf only when no
-   callbacks are installed; that point is only reached with no goroutine at all.) ---------- *)
-Definition e_clrR (e : epcT) : Z := match e with EClrR => 1 | _ => 0 end.
-Record InvV (s : est) : Prop := {
-  v_clr : e_clrR (epc s) = 0 \/ cz g_run (gors s) + cz g_cb (gors s) = 0 }.
-Lemma stepV s w : InvP s -> InvC s -> InvV s -> InvV (step s w).
-Proof.
-  intros [P1 _ _ _ _] [_ _ _ C4 _ _ _ _] [V1].
-  assert (Hrun : cz g_run (gors s) <= cz g_all (gors s)) by (apply cz_le; intros g _; reflexivity).
-  assert (Hcb : cz g_cb (gors s) <= cz g_all (gors s)) by (apply cz_le; intros g _; reflexivity).
-  assert (Hle : 0 <= e_clrR (epc s) <= e_clr (epc s)) by (destruct (epc s); simpl; lia).
-  cases s w; brk; constructor; cbn [e_clrR]; cb; rw_eqs; rw_cnt; cb; cbn [e_clrR] in *; try assumption;
-    czin; cb; uc; zeqh; uc; cb; cbn [e_clrR e_clr] in *; try lia; czpos s; lia.
-Qed.
-Lemma initV cb0 inb n scr ups sy : InvV (init_sy cb0 inb n scr ups sy).
-Proof. constructor; cbn; lia. Qed.
-Lemma runV sched s : InvAll s -> InvV s -> InvV (run sched s).
-Proof.
-  revert s; induction sched as [|w l IH]; simpl; intros s HA HV; auto.
-  apply IH; [apply stepAll, HA|apply stepV; [apply HA|apply HA|exact HV]].
-Qed.
-
-Theorem view_stable cb0 inb nc scr ups sy sched :
-  let s := run sched (init_sy cb0 inb nc scr ups sy) in
-  cz g_run (gors s) >= 1 -> recv (step s WEv) = recv s.
-Proof.
-  intros s Hrun.
-  pose proof (runV sched _ (initAll cb0 inb nc scr ups sy) (initV cb0 inb nc scr ups sy)) as [HV]. fold s in HV.
-  pose proof (cz_nonneg g_cb (gors s)).
-  cbn [step]. unfold estep. destruct (epc s) eqn:Ee; cbn [e_clrR] in HV; try lia.
-  all: repeat match goal with
-       | |- context [match inbox ?x with _ => _ end] => destruct (inbox x) as [|[m|] r]
-       | |- context [if ?c then _ else _] => destruct c
-       end; reflexivity.
-Qed.
-
-(* ====================================================================================================
-   Finality of the user operations: once some Close() has returned (nret > 0) the state is never `opened`
-   again — whichever of the three non-open states it is in, localHalfClosed included — so every Flush whose
-   state check comes later fails with ErrStreamClosed and sends nothing, and a read never blocks
-   ==================================================================================================== *)
-Record InvN (s : est) : Prop := {
-  n_nn : 0 <= nret s;
-  n_ret : st s = c_streamOpened -> nret s = 0 }.
-Lemma stepN s w : InvP s -> InvN s -> InvN (step s w).
-Proof. intros [_ P2 P3 _ _] [N1 N2]. cases s w; brk; constructor; fin s. Qed.
-Lemma initN cb0 inb n scr ups sy : InvN (init_sy cb0 inb n scr ups sy).
-Proof. constructor; cbn; [lia|auto]. Qed.
-Lemma runN sched s : InvAll s -> InvN s -> InvN (run sched s).
-Proof.
-  revert s; induction sched as [|w l IH]; simpl; intros s HA HN; auto.
-  apply IH; [apply stepAll, HA|apply stepN; [apply HA|exact HN]].
-Qed.
-
-(* a result (nil?, aft) is fine unless the Flush succeeded although a Close() had returned before its state check *)
-Definition r_ok (r : bool * bool) : bool := negb (fst r && snd r).
-Definition u_ok (u : ulocal) : Prop :=
-  Forall (fun r => r_ok r = true) (ures u) /\ (forall m, upc u <> UPut m true).
-
-Lemma Forall_set_nth {A} (P : A -> Prop) l i x : Forall P l -> P x -> Forall P (set_nth i x l).
-Proof.
-  intros H Hx. revert i; induction H as [|a l Ha Hl IH]; intros [|i]; simpl; constructor; auto.
-Qed.
-Lemma Forall_nth {A} (P : A -> Prop) l i x : Forall P l -> nth_error l i = Some x -> P x.
-Proof. intros H Hx. rewrite Forall_forall in H. apply H. eapply nth_error_In; eauto. Qed.
-
-Lemma users_frame s w : (forall i, w <> WUser i) -> users (step s w) = users s.
-Proof.
-  intros Hw. cases s w; brk; cb; try reflexivity; exfalso; eapply Hw; reflexivity.
-Qed.
-
-Lemma stepU s w : InvN s -> Forall u_ok (users s) -> Forall u_ok (users (step s w)).
-Proof.
-  intros [N1 N2] HU.
-  destruct w as [|j|j| |i|]; try (rewrite users_frame; [exact HU|intros k; discriminate]).
-  cbn [step]. unfold ustep. destruct (nth_error (users s) i) as [u|] eqn:Hn; [|exact HU].
-  destruct (Forall_nth _ _ _ _ HU Hn) as [Hr Hp].
-  destruct (upc u) as [|m|m|m aft] eqn:Eu.
-  - destruct (utodo u); [exact HU|]. cb. apply Forall_set_nth; [exact HU|]. split; cbn; [exact Hr|intros m0; discriminate].
-  - cb. apply Forall_set_nth; [exact HU|]. split; cbn; [exact Hr|intros m0; discriminate].
-  - destruct (Z.eqb_spec (st s) c_streamOpened) as [E|E]; cb; apply Forall_set_nth; try exact HU; split; cbn.
-    + exact Hr.
-    + rewrite (N2 E). cbn. intros m0; discriminate.
-    + apply Forall_app; split; [exact Hr|repeat constructor].
-    + intros m0; discriminate.
-  - cb. apply Forall_set_nth; [exact HU|]. split; cbn.
-    + apply Forall_app; split; [exact Hr|]. constructor; [|constructor].
-      destruct aft; [exfalso; apply (Hp m); reflexivity|reflexivity].
-    + intros m0; discriminate.
-Qed.
-Lemma initU cb0 inb n scr ups sy : Forall u_ok (users (init_sy cb0 inb n scr ups sy)).
-Proof.
-  cbn. induction ups as [|p ups IH]; cbn; constructor; auto. split; cbn; [constructor|intros m; discriminate].
-Qed.
-Lemma runU sched s : InvAll s -> InvN s -> Forall u_ok (users s) -> Forall u_ok (users (run sched s)).
-Proof.
-  revert s; induction sched as [|w l IH]; simpl; intros s HA HN HU; auto.
-  apply IH; [apply stepAll, HA|apply stepN; [apply HA|exact HN]|apply stepU; auto].
-Qed.
-
-Theorem final_ops cb0 inb nc scr ups sy sched :
-  let s := run sched (init_sy cb0 inb nc scr ups sy) in
-  (* every Flush whose state check came after a returned Close() failed, and none is about to send *)
-  (forall i u, nth_error (users s) i = Some u ->
-     Forall (fun r => snd r = true -> fst r = false) (ures u) /\ (forall m, upc u <> UPut m true)) /\
-  (* and from now on: whatever non-open state the stream is in *)
-  (0 < nret s -> st s <> c_streamOpened /\ flush_res s = RErrStreamClosed /\ read_res s <> RBlocked).
-Proof.
-  intros s.
-  pose proof (runN sched _ (initAll cb0 inb nc scr ups sy) (initN cb0 inb nc scr ups sy)) as [N1 N2]. fold s in N1, N2.
-  pose proof (runU sched _ (initAll cb0 inb nc scr ups sy) (initN cb0 inb nc scr ups sy) (initU cb0 inb nc scr ups sy)) as HU.
-  fold s in HU. split.
-  - intros i u Hi. destruct (Forall_nth _ _ _ _ HU Hi) as [Hr Hp]. split; [|exact Hp].
-    rewrite Forall_forall in *. intros [ok aft] Hin Haft. specialize (Hr _ Hin). unfold r_ok in Hr. cbn in *.
-    subst aft. destruct ok; [discriminate|reflexivity].
-  - intros Hn. assert (Hst : st s <> c_streamOpened) by (intros E; specialize (N2 E); lia).
-    split; [exact Hst|split; [apply flush_closed|apply read_not_blocked]]; auto.
-Qed.
-
-(* ====================================================================================================
-   The pendingData mutex: the fine-grained machine refines the atomic one — every fine schedule performs a
-   schedule of the atomic machine (its Plain and Commit steps, in order); lock, busy, walk and unlock steps
-   leave the stream state alone.  Hence every theorem above holds of every state the fine machine reaches.
-   ==================================================================================================== *)
-Lemma faction_held f w : (faction f w = FCommit \/ (exists i, faction f w = FWalk i)) -> exists h i n c, plk f = Some (h, i, n, c).
-Proof.
-  unfold faction. destruct (plk f) as [[[[h j] n] c]|]; [intros _; eauto|].
-  destruct (pend_op (base f) w); intros [H|[i H]]; discriminate.
-Qed.
-Lemma frun_proj sched f : base (frun sched f) = run (fproj sched f) (base f).
-Proof.
-  revert f; induction sched as [|w r IH]; intros f; [reflexivity|].
-  cbn [frun fold_left fproj]. fold (frun r (fstep f w)). rewrite IH.
-  destruct (faction f w) eqn:Ea; unfold fstep at 2; rewrite Ea; cbn [base run fold_left]; try reflexivity.
-  - destruct (faction_held f w (or_intror (ex_intro _ i Ea))) as [h [j [n [c Hp]]]]. rewrite Hp. reflexivity.
-  - destruct (faction_held f w (or_introl Ea)) as [h [j [n [c Hp]]]]. rewrite Hp. reflexivity.
-Qed.
-
-Theorem fine_reach sched s0 : exists sched', base (frun sched (finit s0)) = run sched' s0.
-Proof. exists (fproj sched (finit s0)). apply frun_proj. Qed.
-
-Lemma who_eqb_eq a b : who_eqb a b = true <-> a = b.
-Proof.
-  destruct a, b; simpl; split; intros H; try discriminate; try reflexivity;
-    try (apply Nat.eqb_eq in H; subst; reflexivity); try (inversion H; subst; apply Nat.eqb_refl).
-Qed.
-
-(* while some other thread holds the mutex (walking r.unread or between its operation and its unlock), a thread
-   whose next step is a pendingData operation — in particular the event loop's add — does not move *)
-Theorem excluded_while_held sched s0 w h i n c :
-  let f := frun sched (finit s0) in
-  plk f = Some (h, i, n, c) -> h <> w -> pend_op (base f) w <> None -> fstep f w = f.
-Proof.
-  intros f Hp Hne Hop. unfold fstep, faction. rewrite Hp.
-  destruct (who_eqb h w) eqn:E; [apply who_eqb_eq in E; contradiction|].
-  destruct (pend_op (base f) w); [reflexivity|congruence].
-Qed.
-
-(* order / exactly once, over the fine steps *)
-Theorem order_once_fine cb0 inb nc scr ups sy sched :
-  let s := base (frun sched (finit (init_sy cb0 inb nc scr ups sy))) in
-  arrived s = concat (map snd (chunks s)) ++ concat (pending s) /\
-  moved s = concat (map snd (filter fst (chunks s))) /\
-  (st s <> c_streamClosed -> arrived s = consumed s ++ recv s ++ concat (pending s)).
-Proof.
-  intros s. unfold s. rewrite frun_proj. cbn [finit base]. apply order_once.
-Qed.
